@@ -37,6 +37,8 @@ func SharedGlobals(prefix string)
 func FrameFile(name string)
 func Symbolic() bool
 func Jitter()
+func Calibrate(ok bool, what string)
+func Stress() bool
 func Stagger()
 func Stdout() string
 func Flag(name, val string)
